@@ -306,6 +306,14 @@ def directive_arguments(
     )
 
 
+def _printable(value: Any) -> str:
+    # What is refused is not necessarily something JSON can represent.
+    try:
+        return json.dumps(value, sort_keys=True)
+    except (TypeError, ValueError):
+        return repr(value)
+
+
 def coerce_variable_values(  # noqa: C901
     schema: Schema,
     operation: _ast.OperationDefinition,
@@ -403,7 +411,7 @@ def coerce_variable_values(  # noqa: C901
                                 'Variable "$%s" got invalid value %s (%s)'
                                 % (
                                     name,
-                                    json.dumps(value, sort_keys=True),
+                                    _printable(value),
                                     child_err,
                                 ),
                                 [var_def],
@@ -413,7 +421,7 @@ def coerce_variable_values(  # noqa: C901
                     errors.append(
                         VariableCoercionError(
                             'Variable "$%s" got invalid value %s (%s)'
-                            % (name, json.dumps(value, sort_keys=True), err),
+                            % (name, _printable(value), err),
                             [var_def],
                         )
                     )
